@@ -539,14 +539,14 @@ package node
 //@   requires [tables] processesWF(n) && namesWF(n) && (forall k any :: smHas(n.processes, k) ==> mailboxWF(smVal(n.processes, k).(*process)))
 //@   loop 1 invariant [idx1] -1 <= rangeindex && rangeindex < len(linkConsumers) && linkConsumers == lastLinks() && monitorConsumers == lastMonitors() && nodupPIDs(linkConsumers) && nodupPIDs(monitorConsumers) && remote != nil
 //@   loop 1 invariant [exits_later_untouched] forall j int :: rangeindex < j && j < len(linkConsumers) ==> exitSent(linkConsumers[j]) == old(exitSent(linkConsumers[j]))
-//@   loop 1 invariant [exits_listed] forall p gen.PID, i int :: 0 <= i && i <= rangeindex && linkConsumers[i] == p ==> exitSent(p) == old(exitSent(p)) + 1
+//@   loop 1 invariant [exits_listed] forall i int :: 0 <= i && i <= rangeindex ==> exitSent(linkConsumers[i]) == old(exitSent(linkConsumers[i])) + 1
 //@   loop 1 invariant [exits_unlisted] forall p gen.PID :: (forall i int :: 0 <= i && i <= rangeindex ==> linkConsumers[i] != p) ==> exitSent(p) == old(exitSent(p))
 //@   loop 1 invariant [no_down_yet] forall p gen.PID :: routed(p) == old(routed(p))
 //@   loop 2 invariant [idx2] -1 <= rangeindex && rangeindex < len(monitorConsumers) && linkConsumers == lastLinks() && monitorConsumers == lastMonitors() && nodupPIDs(monitorConsumers) && remote != nil
 //@   loop 2 invariant [downs_later_untouched] forall j int :: rangeindex < j && j < len(monitorConsumers) ==> routed(monitorConsumers[j]) == old(routed(monitorConsumers[j]))
-//@   loop 2 invariant [downs_listed] forall p gen.PID, i int :: 0 <= i && i <= rangeindex && monitorConsumers[i] == p ==> routed(p) == old(routed(p)) + 1
+//@   loop 2 invariant [downs_listed] forall i int :: 0 <= i && i <= rangeindex ==> routed(monitorConsumers[i]) == old(routed(monitorConsumers[i])) + 1
 //@   loop 2 invariant [downs_unlisted] forall p gen.PID :: (forall i int :: 0 <= i && i <= rangeindex ==> monitorConsumers[i] != p) ==> routed(p) == old(routed(p))
-//@   loop 2 invariant [exits_done_listed] forall p gen.PID, i int :: 0 <= i && i < len(linkConsumers) && linkConsumers[i] == p ==> exitSent(p) == old(exitSent(p)) + 1
+//@   loop 2 invariant [exits_done_listed] forall i int :: 0 <= i && i < len(linkConsumers) ==> exitSent(linkConsumers[i]) == old(exitSent(linkConsumers[i])) + 1
 //@   loop 2 invariant [exits_done_unlisted] forall p gen.PID :: (forall i int :: 0 <= i && i < len(linkConsumers) ==> linkConsumers[i] != p) ==> exitSent(p) == old(exitSent(p))
 //@   at call sendExitMessage assert [exit_names_target_and_reason] typeis(message, gen.MessageExitPID) && message.(gen.MessageExitPID).PID == target && message.(gen.MessageExitPID).Reason == reason
 //@   at call RouteSendPID assert [down_is_high_priority_and_names_target_and_reason] options.Priority == gen.MessagePriorityHigh && typeis(message, gen.MessageDownPID) && message.(gen.MessageDownPID).PID == target && message.(gen.MessageDownPID).Reason == reason
@@ -563,14 +563,14 @@ package node
 //@   requires [tables] processesWF(n) && namesWF(n) && (forall k any :: smHas(n.processes, k) ==> mailboxWF(smVal(n.processes, k).(*process)))
 //@   loop 1 invariant [idx1] -1 <= rangeindex && rangeindex < len(linkConsumers) && linkConsumers == lastLinks() && monitorConsumers == lastMonitors() && nodupPIDs(linkConsumers) && nodupPIDs(monitorConsumers) && remote != nil
 //@   loop 1 invariant [exits_later_untouched] forall j int :: rangeindex < j && j < len(linkConsumers) ==> exitSent(linkConsumers[j]) == old(exitSent(linkConsumers[j]))
-//@   loop 1 invariant [exits_listed] forall p gen.PID, i int :: 0 <= i && i <= rangeindex && linkConsumers[i] == p ==> exitSent(p) == old(exitSent(p)) + 1
+//@   loop 1 invariant [exits_listed] forall i int :: 0 <= i && i <= rangeindex ==> exitSent(linkConsumers[i]) == old(exitSent(linkConsumers[i])) + 1
 //@   loop 1 invariant [exits_unlisted] forall p gen.PID :: (forall i int :: 0 <= i && i <= rangeindex ==> linkConsumers[i] != p) ==> exitSent(p) == old(exitSent(p))
 //@   loop 1 invariant [no_down_yet] forall p gen.PID :: routed(p) == old(routed(p))
 //@   loop 2 invariant [idx2] -1 <= rangeindex && rangeindex < len(monitorConsumers) && linkConsumers == lastLinks() && monitorConsumers == lastMonitors() && nodupPIDs(monitorConsumers) && remote != nil
 //@   loop 2 invariant [downs_later_untouched] forall j int :: rangeindex < j && j < len(monitorConsumers) ==> routed(monitorConsumers[j]) == old(routed(monitorConsumers[j]))
-//@   loop 2 invariant [downs_listed] forall p gen.PID, i int :: 0 <= i && i <= rangeindex && monitorConsumers[i] == p ==> routed(p) == old(routed(p)) + 1
+//@   loop 2 invariant [downs_listed] forall i int :: 0 <= i && i <= rangeindex ==> routed(monitorConsumers[i]) == old(routed(monitorConsumers[i])) + 1
 //@   loop 2 invariant [downs_unlisted] forall p gen.PID :: (forall i int :: 0 <= i && i <= rangeindex ==> monitorConsumers[i] != p) ==> routed(p) == old(routed(p))
-//@   loop 2 invariant [exits_done_listed] forall p gen.PID, i int :: 0 <= i && i < len(linkConsumers) && linkConsumers[i] == p ==> exitSent(p) == old(exitSent(p)) + 1
+//@   loop 2 invariant [exits_done_listed] forall i int :: 0 <= i && i < len(linkConsumers) ==> exitSent(linkConsumers[i]) == old(exitSent(linkConsumers[i])) + 1
 //@   loop 2 invariant [exits_done_unlisted] forall p gen.PID :: (forall i int :: 0 <= i && i < len(linkConsumers) ==> linkConsumers[i] != p) ==> exitSent(p) == old(exitSent(p))
 //@   at call sendExitMessage assert [exit_names_target_and_reason] typeis(message, gen.MessageExitEvent) && message.(gen.MessageExitEvent).Event == target && message.(gen.MessageExitEvent).Reason == reason
 //@   at call RouteSendPID assert [down_is_high_priority_and_names_target_and_reason] options.Priority == gen.MessagePriorityHigh && typeis(message, gen.MessageDownEvent) && message.(gen.MessageDownEvent).Event == target && message.(gen.MessageDownEvent).Reason == reason
@@ -587,14 +587,14 @@ package node
 //@   requires [tables] processesWF(n) && namesWF(n) && (forall k any :: smHas(n.processes, k) ==> mailboxWF(smVal(n.processes, k).(*process)))
 //@   loop 1 invariant [idx1] -1 <= rangeindex && rangeindex < len(linkConsumers) && linkConsumers == lastLinks() && monitorConsumers == lastMonitors() && nodupPIDs(linkConsumers) && nodupPIDs(monitorConsumers) && remote != nil
 //@   loop 1 invariant [exits_later_untouched] forall j int :: rangeindex < j && j < len(linkConsumers) ==> exitSent(linkConsumers[j]) == old(exitSent(linkConsumers[j]))
-//@   loop 1 invariant [exits_listed] forall p gen.PID, i int :: 0 <= i && i <= rangeindex && linkConsumers[i] == p ==> exitSent(p) == old(exitSent(p)) + 1
+//@   loop 1 invariant [exits_listed] forall i int :: 0 <= i && i <= rangeindex ==> exitSent(linkConsumers[i]) == old(exitSent(linkConsumers[i])) + 1
 //@   loop 1 invariant [exits_unlisted] forall p gen.PID :: (forall i int :: 0 <= i && i <= rangeindex ==> linkConsumers[i] != p) ==> exitSent(p) == old(exitSent(p))
 //@   loop 1 invariant [no_down_yet] forall p gen.PID :: routed(p) == old(routed(p))
 //@   loop 2 invariant [idx2] -1 <= rangeindex && rangeindex < len(monitorConsumers) && linkConsumers == lastLinks() && monitorConsumers == lastMonitors() && nodupPIDs(monitorConsumers) && remote != nil
 //@   loop 2 invariant [downs_later_untouched] forall j int :: rangeindex < j && j < len(monitorConsumers) ==> routed(monitorConsumers[j]) == old(routed(monitorConsumers[j]))
-//@   loop 2 invariant [downs_listed] forall p gen.PID, i int :: 0 <= i && i <= rangeindex && monitorConsumers[i] == p ==> routed(p) == old(routed(p)) + 1
+//@   loop 2 invariant [downs_listed] forall i int :: 0 <= i && i <= rangeindex ==> routed(monitorConsumers[i]) == old(routed(monitorConsumers[i])) + 1
 //@   loop 2 invariant [downs_unlisted] forall p gen.PID :: (forall i int :: 0 <= i && i <= rangeindex ==> monitorConsumers[i] != p) ==> routed(p) == old(routed(p))
-//@   loop 2 invariant [exits_done_listed] forall p gen.PID, i int :: 0 <= i && i < len(linkConsumers) && linkConsumers[i] == p ==> exitSent(p) == old(exitSent(p)) + 1
+//@   loop 2 invariant [exits_done_listed] forall i int :: 0 <= i && i < len(linkConsumers) ==> exitSent(linkConsumers[i]) == old(exitSent(linkConsumers[i])) + 1
 //@   loop 2 invariant [exits_done_unlisted] forall p gen.PID :: (forall i int :: 0 <= i && i < len(linkConsumers) ==> linkConsumers[i] != p) ==> exitSent(p) == old(exitSent(p))
 //@   at call sendExitMessage assert [exit_names_target_and_reason] typeis(message, gen.MessageExitAlias) && message.(gen.MessageExitAlias).Alias == target && message.(gen.MessageExitAlias).Reason == reason
 //@   at call RouteSendPID assert [down_is_high_priority_and_names_target_and_reason] options.Priority == gen.MessagePriorityHigh && typeis(message, gen.MessageDownAlias) && message.(gen.MessageDownAlias).Alias == target && message.(gen.MessageDownAlias).Reason == reason
@@ -611,14 +611,14 @@ package node
 //@   requires [tables] processesWF(n) && namesWF(n) && (forall k any :: smHas(n.processes, k) ==> mailboxWF(smVal(n.processes, k).(*process)))
 //@   loop 1 invariant [idx1] -1 <= rangeindex && rangeindex < len(linkConsumers) && linkConsumers == lastLinks() && monitorConsumers == lastMonitors() && nodupPIDs(linkConsumers) && nodupPIDs(monitorConsumers) && remote != nil
 //@   loop 1 invariant [exits_later_untouched] forall j int :: rangeindex < j && j < len(linkConsumers) ==> exitSent(linkConsumers[j]) == old(exitSent(linkConsumers[j]))
-//@   loop 1 invariant [exits_listed] forall p gen.PID, i int :: 0 <= i && i <= rangeindex && linkConsumers[i] == p ==> exitSent(p) == old(exitSent(p)) + 1
+//@   loop 1 invariant [exits_listed] forall i int :: 0 <= i && i <= rangeindex ==> exitSent(linkConsumers[i]) == old(exitSent(linkConsumers[i])) + 1
 //@   loop 1 invariant [exits_unlisted] forall p gen.PID :: (forall i int :: 0 <= i && i <= rangeindex ==> linkConsumers[i] != p) ==> exitSent(p) == old(exitSent(p))
 //@   loop 1 invariant [no_down_yet] forall p gen.PID :: routed(p) == old(routed(p))
 //@   loop 2 invariant [idx2] -1 <= rangeindex && rangeindex < len(monitorConsumers) && linkConsumers == lastLinks() && monitorConsumers == lastMonitors() && nodupPIDs(monitorConsumers) && remote != nil
 //@   loop 2 invariant [downs_later_untouched] forall j int :: rangeindex < j && j < len(monitorConsumers) ==> routed(monitorConsumers[j]) == old(routed(monitorConsumers[j]))
-//@   loop 2 invariant [downs_listed] forall p gen.PID, i int :: 0 <= i && i <= rangeindex && monitorConsumers[i] == p ==> routed(p) == old(routed(p)) + 1
+//@   loop 2 invariant [downs_listed] forall i int :: 0 <= i && i <= rangeindex ==> routed(monitorConsumers[i]) == old(routed(monitorConsumers[i])) + 1
 //@   loop 2 invariant [downs_unlisted] forall p gen.PID :: (forall i int :: 0 <= i && i <= rangeindex ==> monitorConsumers[i] != p) ==> routed(p) == old(routed(p))
-//@   loop 2 invariant [exits_done_listed] forall p gen.PID, i int :: 0 <= i && i < len(linkConsumers) && linkConsumers[i] == p ==> exitSent(p) == old(exitSent(p)) + 1
+//@   loop 2 invariant [exits_done_listed] forall i int :: 0 <= i && i < len(linkConsumers) ==> exitSent(linkConsumers[i]) == old(exitSent(linkConsumers[i])) + 1
 //@   loop 2 invariant [exits_done_unlisted] forall p gen.PID :: (forall i int :: 0 <= i && i < len(linkConsumers) ==> linkConsumers[i] != p) ==> exitSent(p) == old(exitSent(p))
 //@   at call sendExitMessage assert [exit_names_target_and_reason] typeis(message, gen.MessageExitProcessID) && message.(gen.MessageExitProcessID).ProcessID == target && message.(gen.MessageExitProcessID).Reason == reason
 //@   at call RouteSendPID assert [down_is_high_priority_and_names_target_and_reason] options.Priority == gen.MessagePriorityHigh && typeis(message, gen.MessageDownProcessID) && message.(gen.MessageDownProcessID).ProcessID == target && message.(gen.MessageDownProcessID).Reason == reason
